@@ -449,6 +449,10 @@ def get_strategy_base():
             if pr.get('p_hook_market', 0.0) > 0 and not pr.get('inert') and self._uu('open', 'hm', 1.0) < pr['p_hook_market']:
                 # a plain market order submitted in reaction to the opening fill (scale out a part at once)
                 q = self._round_qty(abs(float(self.position.qty)) * 0.3)
+                closing = 'sell' if self.position.type == 'long' else 'buy'
+                if any(o.is_active and not o.reduce_only and o.side == closing
+                       for o in store.orders.get_active_orders(self.exchange, self.symbol)):
+                    q = 0     # a plain order already rests on the closing side: a plain market order beside it could flip the position
                 if q > 0:
                     if self.position.type == 'long':
                         self.broker.sell_at_market(q)
@@ -507,6 +511,11 @@ def get_strategy_base():
                 return      # the forced close at the end of the session
             reg = self._c.scratch.get('registry')
             if reg is not None and reg.in_liq:
+                return
+            # one hook-submitted entry at a time, and never next to other resting orders: two plain orders on opposite
+            # sides (or one next to a hook market order) can flip the position they open - jesse's flip handling is the
+            # known finding of C06 and a ping-pong hazard for programs, not what this knob is meant to explore
+            if any(o.is_active for o in store.orders.get_active_orders(self.exchange, self.symbol)):
                 return
             price = float(self.price)
             dk = 1 + int(self._uu(hk, 're_dk', 0.0) * max(1, self._prog['entry_dist']))
